@@ -148,6 +148,7 @@ class Spec(object):
                 # normal termination needs no complete tree here (the owning property explores it completely)
                 c = dict(c, D=min(c.get("D", INF), 2 if tier == "quick" else 4), family="F-imported")
                 out.append(c)
+        out += sched_preempt_classchange_block(tier)       # complete trees (the crash needs five deviations)
         singles = [c for c in universal.family("quick") if len(c["features"]) <= (1 if tier == "quick" else 2)]
         import copy
         for T in (4.25, 15.0):
